@@ -313,6 +313,9 @@ fn client(spec: ConnSpec, sh: Arc<Shared>) -> ConnResult {
 // ------------------------------------------------------------------------------------------- one run
 
 static MAX_LAG_US: AtomicU64 = AtomicU64::new(0);
+/// Every shard process has its own loopback address, so that a port freed by one shard and bound again by
+/// another one can never make a probe of the first shard reach a foreign listener.
+static SHARD: AtomicU64 = AtomicU64::new(0);
 static PANICS: Mutex<Vec<(String, String)>> = Mutex::new(Vec::new());
 
 pub struct RunRecord {
@@ -340,7 +343,8 @@ fn run_one(rt: &tokio::runtime::Runtime, plan: &Plan) -> RunRecord {
     let _ = verif::take_events();
     verif::install_plan(plan.delays.clone());
     PANICS.lock().unwrap().clear();
-    let listener = match std::net::TcpListener::bind("127.0.0.1:0") {
+    let own = format!("127.0.0.{}:0", 2 + SHARD.load(Ordering::SeqCst) % 250);
+    let listener = match std::net::TcpListener::bind(own.as_str()).or_else(|_| std::net::TcpListener::bind("127.0.0.1:0")) {
         Ok(l) => l,
         Err(e) => {
             rec.setup_error = Some(format!("bind: {e}"));
@@ -507,6 +511,7 @@ fn emit(v: Value) {
 
 fn shard_main(cfg: &Cfg, shard: u64, hseeds: Option<Vec<u64>>) {
     install_probes();
+    SHARD.store(shard, Ordering::SeqCst);
     let rt = tokio::runtime::Builder::new_multi_thread()
         .worker_threads(2)
         .thread_name("c16-rt")
